@@ -25,7 +25,9 @@ EXTENDS Judge, Json
 CONSTANTS Shapes,    \* sequence of [id, d, cfg, root]
           Script,    \* sequence of action names
           Deep,      \* thorough value sets?
-          Props      \* property ids whose clauses are evaluated
+          Props,     \* property ids whose clauses are evaluated
+          ObjMode,   \* "all" | "prior"   : what SetObj chooses from
+          RawMode    \* "plans" | "corrupt" | "reduced" : what LoadRaw chooses from
 
 VARIABLES sh, M, obj, tf, dg, pn, pc, hist, viol, aux
 
@@ -64,9 +66,11 @@ CopyTo == At("CopyTo") /\ LET r == ToMsg(M, obj, tf) IN Do("CopyTo", NoArg, obj,
 CopyFrom == At("CopyFrom") /\ LET r == FromMsg(M, tf, obj) IN Do("CopyFrom", NoArg, r.obj, tf, r.dg, r.pn)
 
 \* data the scripts choose from (a model configuration may narrow them)
-ObjChoices == MsgVals(M, Deep, FALSE)
-PlanChoices == MsgPlans(M, FALSE, FALSE)
-RawChoices == MsgPlans(M, TRUE, FALSE)
+ObjChoices == IF ObjMode = "prior" THEN PriorVals(M, Deep) ELSE MsgVals(M, Deep, FALSE)
+PlanChoices == {DecodedForm(p) : p \in {q \in MsgPlans(M, FALSE, FALSE) : C08Plan(M, q)}}
+RawChoices == CASE RawMode = "corrupt" -> Corrupted(M, Deep)
+                [] RawMode = "reduced" -> Reduced(M, Deep)
+                [] OTHER -> MsgPlans(M, TRUE, FALSE)
 
 Next ==
   \/ At("SetObj") /\ \E v \in ObjChoices : SetObj(v)
